@@ -6,8 +6,12 @@
 //     THROW                                  std::runtime_error (exact dynamic type)
 //     THROW-OTHER:<type>                     any other exception (violates the property)
 //     CRASH rc=<n> | CRASH sig=<n>           (fork mode only) the child died: sanitizer report / signal
+//     HANG                                   the case did not return within 3 s (watchdog alarm); in-process
+//                                            mode: the harness then exits with 96
+//     SKIPPED                                (fork mode) more than 25 children died/hung: not run
 //   in-process mode: an ASan report kills the harness; the index of the killing case is the
 //   number of lines printed so far (the check restarts after it in fork mode).
+#include <signal.h>
 #include <sys/types.h>
 #include <sys/wait.h>
 #include <unistd.h>
@@ -72,8 +76,17 @@ static std::string runCase(const std::string &path, const std::string &bytes)
   return out;
 }
 
+static void onAlarm(int)
+{
+  static const char msg[] = "HANG\n";
+  ssize_t rc = write(1, msg, sizeof(msg) - 1);
+  (void)rc;
+  _exit(96);
+}
+
 int main(int argc, char **argv)
 {
+  signal(SIGALRM, onAlarm);
   if (argc < 2) { fprintf(stderr, "usage: harness <scratch-file> [fork]\n"); return 2; }
   std::string path = argv[1];
   bool forkMode = argc > 2 && std::string(argv[2]) == "fork";
@@ -84,20 +97,28 @@ int main(int argc, char **argv)
   while (std::getline(std::cin, line)) {
     std::string bytes = unhex(line);
     if (!forkMode) {
+      alarm(3);
       std::string r = runCase(path, bytes);
+      alarm(0);
       fputs(r.c_str(), stdout); fputc('\n', stdout); fflush(stdout);
       continue;
     }
+    static int abnormal = 0;
+    if (abnormal > 25) { printf("SKIPPED\n"); fflush(stdout); continue; }
     fflush(stdout);
     pid_t pid = fork();
     if (pid == 0) {
+      alarm(3);
       std::string r = runCase(path, bytes);
+      alarm(0);
       fputs(r.c_str(), stdout); fputc('\n', stdout); fflush(stdout);
       _exit(0);
     }
     int st = 0;
     waitpid(pid, &st, 0);
     if (WIFEXITED(st) && WEXITSTATUS(st) == 0) continue;
+    abnormal++;
+    if (WIFEXITED(st) && WEXITSTATUS(st) == 96) continue;   // the child printed HANG itself
     if (WIFEXITED(st)) printf("CRASH rc=%d\n", WEXITSTATUS(st));
     else printf("CRASH sig=%d\n", WIFSIGNALED(st) ? WTERMSIG(st) : -1);
     fflush(stdout);
